@@ -137,8 +137,12 @@ def serial_send_units(prop):
     return U
 
 
+REPORT_BOUND = {"n": 4}
+
+
 def units(tier):
     CF.WMAX = 64
+    REPORT_BOUND["n"] = 6 if tier == "thorough" else 4
     U = []
 
     def unit(name, runner, **kw):
@@ -174,7 +178,7 @@ def units(tier):
 
             def env(event):
                 targets = [msgs for key, (ev, msgs) in entries(outstanding) if ev is event]
-                if len(delivered) >= 4 or not targets:
+                if len(delivered) >= REPORT_BOUND["n"] or not targets:
                     return
                 k = ctx.choose_int(ctx.fresh_int("report_kind", 0, 4), "report kind")
                 if k == 4:
